@@ -281,7 +281,7 @@ Definition mk_default (h : heap) (t : ty) (k : Z) (d : option comp) : err + (hea
       | Some td => if default_type_bad td t then inl EDflt else inr (h, DScal c)
       end
   | None =>
-      if k =? 1 then inr (h, DScal (type_default t))
+      if default_is_scalar k then inr (h, DScal (type_default t))
       else inr (h ++ [mkcell t (repeat (type_default t) (Z.to_nat k))], DCell (length h))
   end.
 
